@@ -309,13 +309,16 @@ func c05Run(c *mc.Ctx) {
 	type bound struct{ depth, dev int }
 	bounds := []bound{{4, 0}, {3, 1}}
 	if c.Thorough() {
-		bounds = []bound{{5, 1}, {4, 2}}
+		bounds = []bound{{5, 0}, {4, 1}, {3, 2}}
 	}
 	specs := c05Specs(c.Thorough())
 	c.Note("applications", fmt.Sprint(len(specs)))
 	c.Note("bounds_depth_deviations", fmt.Sprint(bounds))
 	for si, sp := range specs {
 		for _, bd := range bounds {
+			if bd.dev >= 2 && si%3 != 0 {
+				continue // two non-default answers per execution: every third member of the family
+			}
 			if !c.Mine() {
 				continue
 			}
